@@ -312,7 +312,7 @@ def c02_programs(tier, seed, rnd, alpha=None, caps=None):
         c["MaxNodes"] = nq if q else nt
         c["SigsName"] = sg
         rs, res = gen.run_builder(c, "c02_%s_%d" % (sg, c["MaxNodes"] * 100 + len(c["Stmts"]) * 10 + len(c["Ctrl"])), workers=4, timeout=1500, main_calls=True,
-                                  cap=((caps or (6000, 400))[0 if (al is A_REF or al is A_ROUTLOOP or al is A_IFCHAIN) else 1]) if q else (caps or (8000, 8000))[0],
+                                  cap=(min((caps or (6000, 400))[0], 6000 if al is A_REF else 900) if (al is A_REF or al is A_ROUTLOOP or al is A_IFCHAIN) else (caps or (6000, 400))[1]) if q else (caps or (8000, 8000))[0],
                                   rnd=random.Random(seed))
         return sg, c, rs, res
 
